@@ -202,6 +202,9 @@ func c18Step(depth int, alphabet []world.Op) func(x *engine.Exec) []engine.Failu
 		if s.Flag {
 			x.Cnt.Inc("boundary.with_rebalance_flag_set")
 		}
+		if a, ok := s.Assets["zzz"]; ok && a.TotalTokens.IsPositive() && s.Time.Before(a.RewardStartTime) {
+			x.Cnt.Inc("boundary.with_staked_warmup_asset_created_by_governance")
+		}
 		nB := map[string]int{}
 		for _, u := range s.Unb {
 			nB[fmt.Sprintf("%d@%d", u.D, u.Completion.UnixNano())]++
@@ -352,8 +355,28 @@ func init() {
 				sc.Ops = rewardOps
 				return sc
 			}
+			// the first alliance ever: whitelisted by governance with a warm-up period on a chain without any alliance state (no
+			// validator record exists yet), staked during the warm-up, nothing else happening until its rewards start
+			fcfg := world.DefaultConfig()
+			fcfg.Assets = nil
+			fcfg.RewardDelay = 4 * U
+			fcfg.DelFunds["zzz"] = "1000000000"
+			first := mk("c18-first-alliance", fcfg, tierPick(tier, []int{1, 0, 0, 3, 1}, []int{2, 0, 0, 4, 1}), tierPick(tier, 5, 7), 2, []world.Op{
+				{K: world.KBlock, Dt: int64(U)}, {K: world.KBlock, Dt: int64(7 * U)}, {K: world.KDelegate, D: 1, V: 1, Denom: "zzz", Amt: "100"},
+			}, []string{"boundary_states", "lockstep.continuation_steps", "boundary.with_staked_warmup_asset_created_by_governance"})
+			first.Seeds = [][]world.Op{nil}
+			first.Ops = func(n *engine.Node) []world.Op {
+				ops := []world.Op{{K: world.KBlock, Dt: int64(U), Class: ClsBlock}, {K: world.KBlock, Dt: int64(3 * U), Class: ClsBlock}}
+				if _, ok := n.Snap().Assets["zzz"]; !ok {
+					ops = append(ops, world.Op{K: world.KGovCreate, Denom: "zzz", Class: ClsGov, Args: govArgs("authority", "0.5", "0,5", "0", "1", 0, false)})
+				} else {
+					ops = append(ops, world.Op{K: world.KDelegate, D: 0, V: 0, Denom: "zzz", Amt: "1000000", Class: ClsUser})
+				}
+				return ops
+			}
 			if tier == "thorough" {
 				return []*engine.Scenario{
+					first,
 					rewards([]int{2, 0, 2, 4, 1}, 8, 3),
 					mk("c18-genesis", c18Config(), []int{3, 1, 1, 3, 0}, 6, 2, c18Cont, reqAll),
 					mk("c18-genesis-deep-continuations", c18Config(), []int{2, 1, 1, 2, 0}, 4, 3, c18ContSmall, reqAll),
@@ -361,6 +384,7 @@ func init() {
 				}
 			}
 			return []*engine.Scenario{
+				first,
 				mk("c18-genesis", c18Config(), []int{2, 1, 1, 2, 0}, 4, 2, c18ContSmall, reqAll),
 				mk("c18-warmup-flag", warm, []int{1, 0, 0, 1, 0}, 2, 2, c18ContSmall, reqWarm),
 				rewards([]int{1, 0, 2, 3, 1}, 6, 2),
